@@ -89,6 +89,9 @@ def gen_cases(rng, tier):
         segfirst = sorted(range(len(txs)), key=lambda i: txs[i][3] is None)     # a segwit transaction first
         s2 = [sers[i] for i in segfirst]
         out.append(case("block-deser-ids-segwit-first", "block_ids", rng.randbytes(80) + txgen.ref_cs(len(s2)) + b"".join(s2)))
+    # a block whose transaction count needs a 3-byte CompactSize (253+): offsets must follow the count's real width
+    many = [txgen.ref_ser(txgen.gen_tx(rng, n_in=1, n_out=1, segwit=(i % 3 == 0))) for i in range(253 if not T else 300)]
+    out.append(case("block-deser-ids-253", "block_ids", rng.randbytes(80) + txgen.ref_cs(len(many)) + b"".join(many), timeout=120))
     for name, raw in txgen.corpus():
         cls = "corpus-genesis" if name.startswith("genesis") else "corpus-bip143"
         for tn, tr in (("", b""), ("+own-last4", raw[-4:]), ("+copy", raw), ("+byte-00", b"\x00")):
@@ -236,3 +239,9 @@ def coq_equation(c, mr):
     if c["op"] == "txid":
         return "c04_txid sha256 %s = %s" % (coq_bytes(a[0]), coq_bytes(mr[1]))
     return None
+
+
+# ops whose answer must not depend on the concrete bytes-like type of their arguments (they agree on the pinned tree;
+# tools/bytearray_probe.py); common.py re-runs a sample of their cases with bytearray arguments
+BYTEARRAY_OPS = {'txin_default', 'tx_deser', 'txid', 'block_ids'}
+MEMORYVIEW_OPS = {'tx_deser', 'block_ids', 'txid'}
